@@ -647,3 +647,44 @@ def user_config_wins(ctx):
                               "`%s` gives %r with a user value and %r without" % (f, render(best)[:90], res.get(False), res.get(True)))
     ctx.covered("settings read from the user configuration with the default configuration as fallback (evaluated both ways)", n, distinct_keys=["settings:%d" % n])
     ctx.floor(n, 8, "settings read from both configurations", "searcher")
+
+
+def value_walks_reach_arguments(ctx):
+    """X-EXPRWALK: a recursive walk of the value layer of an expression tree (a function that calls itself on `left` and on
+    `right` of an Expr and does not look at `logical_op`) also visits `args`, where the parser keeps the second and later
+    arguments of a function: a predicate such as "reads no column" / "has an aggregate" that skips them misjudges
+    `least(4096, size)`.  Walks of the left spine only (contains_numeric ..) and walks of the Boolean layer (negation,
+    conforms) are other shapes and not concerned."""
+    prog = ctx.prog
+    n = 0
+    walks = []
+    for name in sorted(prog.fns):
+        if "{closure" in name or "mir" not in prog.fns[name]:
+            continue
+        sig = str(prog.fns[name].get("sig") or "")
+        if "Expr" not in sig:
+            continue
+        # recursive: the function is reachable from its own callees
+        callees = prog.local_callees(name)
+        if name not in callees and name not in prog.reachable_fns(callees - {name}):
+            continue
+        # the walk is the whole recursion cycle (get_column_expr_value <-> get_function_value): union of its members' reads
+        cycle = [g for g in prog.reachable_fns([name]) if "{closure" not in g and name in prog.reachable_fns([g])]
+        reads = set()
+        for g in cycle:
+            for m in prog.with_closures(g):
+                b = prog.body(m)
+                if b:
+                    reads |= b.field_reads()
+        if not ({"left", "right"} <= reads) or "logical_op" in reads:
+            continue
+        n += 1
+        walks.append(name)
+        ok = "args" in reads
+        ctx.obligation(ok)
+        if not ok:
+            ctx.violation("expr-walk/%s" % short(name, 2), ctx.where(name),
+                          "%s walks an expression tree through `left` and `right` but never looks at `args` (the further arguments of a function): "
+                          "what it decides is wrong for expressions such as least(4096, size) or concat(name, count(*))" % short(name, 2))
+    ctx.covered("recursive walks of the value layer of Expr (left, right and args visited)", n, distinct_keys=walks)
+    ctx.floor(n, 2, "recursive value-layer walks of Expr", "expr::Expr")
